@@ -2137,3 +2137,271 @@ Section Lenient.
   Theorem too_many_positionals_lenient pre tok rest : parse f true (pre ++ tok :: rest) <> Err CannotParse.
   Proof. apply never. Qed.
 End Lenient.
+
+(* ================= 10. the error kinds under a hypothesis that multi-valued options meet =================
+   opts_ok (ParserLemmas) asks conv_input (o_default o) of EVERY option; a multi-valued option keeps the list []
+   as default (Option.set_default, dec_opt), and conv_input (VList []) = false: strict_error_kinds, lenient_total
+   and bad_option_value say nothing about a format with a multi-valued option.  The default of an option is only
+   ever stored when its value is not required, so this suffices: *)
+Definition opts_ok_w (f : fmt) : Prop :=
+  forall n o, get_option f n true = Ok o ->
+    (o_multi o = true -> o_required o = true) /\ (o_required o = false -> conv_input (o_default o) = true).
+Lemma opts_ok_weaken f : opts_ok f -> opts_ok_w f.
+Proof. intros H n o Ho. destruct (H n o Ho) as [H1 H2]. auto. Qed.
+
+Lemma store_spec_w st n o v t :
+  (o_multi o = true -> o_required o = true) -> (o_required o = false -> conv_input (o_default o) = true) ->
+  st_plain st ->
+  match store st n o v t with
+  | Ok (st', t') => st_plain st' /\ t' = t /\ ps_args st' = ps_args st
+  | Err k => pk k
+  end.
+Proof.
+  intros Hm Hd Hp. unfold store. destruct (match v with Some [] => None | x => x end) as [s|].
+  - destruct (o_multi o); (split; [apply st_plain_set; [assumption|intros ? HH; discriminate HH]|split; reflexivity]).
+  - destruct (o_required o) eqn:Hr; [left; reflexivity|].
+    destruct (o_multi o) eqn:Hmu; [discriminate (Hm eq_refl)|].
+    split; [|split; reflexivity]. apply st_plain_set; [assumption|].
+    destruct (o_optional o); intros d Hdd; inversion Hdd; subst. exact (Hd eq_refl).
+Qed.
+Lemma add_long_spec_w f st n v t :
+  opts_ok_w f -> st_plain st ->
+  match add_long_option f st n v t with
+  | Ok (st', t') => st_plain st' /\ length t' <= length t /\ ps_args st' = ps_args st
+  | Err k => pk k
+  end.
+Proof.
+  intros Hok Hp. rewrite add_long_eq.
+  destruct (has_option f n true) eqn:Hh; cbn [negb]; [|right; reflexivity].
+  destruct (has_option_get f n Hh) as [o Ho]. cbn [get_option]. rewrite Ho. cbn [bind].
+  destruct (Hok n o Ho) as [Hm Hd].
+  destruct (match v with Some _ => negb (o_accepts o) | None => false end); [left; reflexivity|].
+  destruct (look_suffix (o_accepts o) v t) as [c Hc].
+  pose proof (store_spec_w st n o (fst (look (o_accepts o) v t)) (snd (look (o_accepts o) v t)) Hm Hd Hp) as H.
+  destruct (store st n o _ _) as [[st' t']|k]; [|exact H].
+  destruct H as (H1 & -> & H3). repeat split; auto. rewrite Hc at 2. rewrite app_length. lia.
+Qed.
+Lemma add_short_spec_w f st n v t :
+  opts_ok_w f -> st_plain st ->
+  match add_short_option f st n v t with
+  | Ok (st', t') => st_plain st' /\ length t' <= length t /\ ps_args st' = ps_args st
+  | Err k => pk k
+  end.
+Proof.
+  intros Hok Hp. unfold add_short_option.
+  destruct (has_option f n true) eqn:Hh; cbn [negb]; [|right; reflexivity].
+  destruct (has_option_get f n Hh) as [o Ho]. cbn [get_option]. rewrite Ho. cbn [bind].
+  apply add_long_spec_w; assumption.
+Qed.
+Lemma parse_long_spec_w f st tok t :
+  opts_ok_w f -> st_plain st ->
+  match parse_long_option f st tok t with
+  | Ok (st', t') => st_plain st' /\ length t' <= length t /\ ps_args st' = ps_args st
+  | Err k => pk k
+  end.
+Proof.
+  intros Hok Hp. unfold parse_long_option.
+  destruct (split_eq (skipn 2 tok) []) as [[n v]|]; [apply add_long_spec_w; assumption|].
+  destruct (accepts f (skipn 2 tok)); [|apply add_long_spec_w; assumption].
+  pose proof (take_value_len t) as Hl. destruct (take_value t) as [v t']. cbn [snd] in Hl.
+  pose proof (add_long_spec_w f st (skipn 2 tok) v t' Hok Hp) as H.
+  destruct (add_long_option f st (skipn 2 tok) v t') as [[st' t'']|k]; [|exact H].
+  destruct H as (H1 & H2 & H3). repeat split; auto; lia.
+Qed.
+Lemma short_set_spec_w f : opts_ok_w f -> forall name st t, st_plain st ->
+  st_plain (snd (short_set f st name t)) /\ ps_args (snd (short_set f st name t)) = ps_args st /\
+  match fst (short_set f st name t) with
+  | Ok (st', t') => st' = snd (short_set f st name t) /\ length t' <= length t
+  | Err k => pk k
+  end.
+Proof.
+  intros Hok. induction name as [|c rest IH]; intros st t Hp; cbn [short_set fst snd].
+  - repeat split; auto.
+  - destruct (has_option f [c] true) eqn:Hh; cbn [negb fst snd]; [|repeat split; auto; right; reflexivity].
+    destruct (has_option_get f [c] Hh) as [o Ho]. cbn [get_option]. rewrite Ho.
+    destruct (o_accepts o).
+    + pose proof (add_long_spec_w f st (o_long o) (match rest with [] => None | _ => Some rest end) t Hok Hp) as H.
+      destruct (add_long_option f st (o_long o) _ t) as [[st' t']|k]; cbn [fst snd].
+      * destruct H as (H1 & H2 & H3). repeat split; auto.
+      * repeat split; auto.
+    + pose proof (add_long_spec_w f st (o_long o) None t Hok Hp) as H.
+      destruct (add_long_option f st (o_long o) None t) as [[st' t']|k]; cbn [fst snd].
+      * destruct H as (H1 & H2 & H3). destruct (IH st' t' H1) as (I1 & I2 & I3).
+        split; [exact I1|]. split; [congruence|].
+        destruct (fst (short_set f st' rest t')) as [[st2 t2]|k]; [|exact I3].
+        destruct I3 as [I3 I4]. split; [exact I3|lia].
+      * repeat split; auto.
+Qed.
+Lemma parse_short_spec_w f st tok t :
+  opts_ok_w f -> st_plain st -> skipn 1 tok <> [] ->
+  st_plain (snd (parse_short_option f st tok t)) /\ ps_args (snd (parse_short_option f st tok t)) = ps_args st /\
+  match fst (parse_short_option f st tok t) with
+  | Ok (st', t') => st' = snd (parse_short_option f st tok t) /\ length t' <= length t
+  | Err k => pk k
+  end.
+Proof.
+  intros Hok Hp Hne. unfold parse_short_option.
+  destruct (skipn 1 tok) as [|c [|c2 rest]]; [contradiction| |].
+  - destruct (accepts f [c]).
+    + pose proof (take_value_len t) as Hl. destruct (take_value t) as [v t']. cbn [snd] in Hl.
+      pose proof (add_short_spec_w f st [c] v t' Hok Hp) as H.
+      destruct (add_short_option f st [c] v t') as [[st' t'']|k]; cbn [fst snd].
+      * destruct H as (H1 & H2 & H3). repeat split; auto; lia.
+      * repeat split; auto.
+    + pose proof (add_short_spec_w f st [c] None t Hok Hp) as H.
+      destruct (add_short_option f st [c] None t) as [[st' t'']|k]; cbn [fst snd].
+      * destruct H as (H1 & H2 & H3). repeat split; auto.
+      * repeat split; auto.
+  - destruct (accepts f [c]).
+    + pose proof (add_short_spec_w f st [c] (Some (c2 :: rest)) t Hok Hp) as H.
+      destruct (add_short_option f st [c] (Some (c2 :: rest)) t) as [[st' t'']|k]; cbn [fst snd].
+      * destruct H as (H1 & H2 & H3). repeat split; auto.
+      * repeat split; auto.
+    + apply short_set_spec_w; assumption.
+Qed.
+Lemma loop_spec_w f len : opts_ok_w f -> forall fuel p st tokens, st_plain st -> length tokens < fuel ->
+  st_plain (fst (loop fuel f len p st tokens)) /\
+  forall k, snd (loop fuel f len p st tokens) = Some k -> pk k.
+Proof.
+  intros Hok. induction fuel as [|fuel IH]; intros p st tokens Hp Hf; [lia|]. cbn [loop].
+  destruct tokens as [|tok rest]; [cbn; split; [exact Hp|discriminate]|]. cbn [length] in Hf.
+  assert (forall st', st_plain st' -> forall p' rest', length rest' <= length rest ->
+            st_plain (fst (loop fuel f len p' st' rest')) /\
+            forall k, snd (loop fuel f len p' st' rest') = Some k -> pk k) as Hrec.
+  { intros. apply IH; [assumption|lia]. }
+  assert (st_plain (fst (match parse_argument f len st tok with
+                         | Ok st' => loop fuel f len p st' rest | Err k => (st, Some k) end)) /\
+          forall k, snd (match parse_argument f len st tok with
+                         | Ok st' => loop fuel f len p st' rest | Err k => (st, Some k) end) = Some k -> pk k) as Harg.
+  { pose proof (parse_argument_spec f len st tok Hp) as H.
+    destruct (parse_argument f len st tok) as [st'|k]; [apply Hrec; [assumption|lia]|].
+    cbn. split; [exact Hp|]. intros k' Hk. inversion Hk; subst. left. reflexivity. }
+  destruct (p && negb (nonempty tok)); [exact Harg|].
+  destruct (p && is_dd tok); [apply Hrec; [assumption|lia]|].
+  destruct (p && starts_dd tok).
+  { pose proof (parse_long_spec_w f st tok rest Hok Hp) as H.
+    destruct (parse_long_option f st tok rest) as [[st' rest']|k].
+    - destruct H as (H1 & H2 & _). apply Hrec; assumption.
+    - cbn. split; [exact Hp|]. intros k' Hk. inversion Hk; subst. exact H. }
+  destruct (p && starts_dash tok && negb (str_eqb tok [DASH])) eqn:Hs; [|exact Harg].
+  apply andb_prop in Hs as [Hs Hnd]. apply andb_prop in Hs as [_ Hsd].
+  assert (skipn 1 tok <> []) as Hne by (apply starts_dash_skipn; [assumption|now destruct (str_eqb tok [DASH])]).
+  destruct (parse_short_spec_w f st tok rest Hok Hp Hne) as (S1 & _ & S3).
+  destruct (parse_short_option f st tok rest) as [[[st' rest']|k] st2]; cbn [fst snd] in *.
+  - destruct S3 as [-> Hl]. apply Hrec; assumption.
+  - split; [exact S1|]. intros k' Hk. inversion Hk; subst. exact S3.
+Qed.
+
+Theorem parse_error_kinds_w f len toks f' arguments cns :
+  aug_format f = Ok (f', arguments, cns) -> opts_ok_w f' ->
+  forall k, parse f len toks = Err k ->
+    allowed k /\ (len = true -> k = ValueError).
+Proof.
+  intros Haug Hok k. unfold parse, parse_on. rewrite Haug.
+  destruct (loop_spec_w f' len Hok (S (length toks)) true ps_empty toks st_plain_empty ltac:(lia)) as [Hp He].
+  destruct (loop (S (length toks)) f' len true ps_empty toks) as [st1 e]. cbn [fst snd] in *.
+  assert (forall k0, (match e with
+                      | Some CannotParse | Some NoSuchOption => if len then None else e
+                      | _ => e end) = Some k0 -> pk k0 /\ len = false) as Hfilter.
+  { intros k0. destruct e as [k1|]; [|discriminate]. destruct (He k1 eq_refl) as [->| ->];
+      (destruct len; [discriminate|]); intros H; inversion H; subst; split; auto; unfold pk; auto. }
+  destruct (match e with
+            | Some CannotParse | Some NoSuchOption => if len then None else e
+            | _ => e end) as [k0|].
+  - cbn [snd]. intros H. inversion H; subst. destruct (Hfilter k eq_refl) as [[->| ->] ->];
+      (split; [unfold allowed; auto|discriminate]).
+  - pose proof (insert_missing_spec arguments cns len st1) as Hi.
+    destruct (insert_missing arguments cns len st1) as [st2|k2].
+    + destruct (missing_required arguments st2 && negb len) eqn:Hm; cbn [snd].
+      * intros H. inversion H; subst. split; [unfold allowed; auto|].
+        intros ->. rewrite andb_false_r in Hm. discriminate.
+      * destruct (set_arguments f {| ar_opts := []; ar_args := [] |} (ps_args st2)) as [a1|k1] eqn:Ea; cbn [bind].
+        -- intros H. assert (k = ValueError) as ->; [|split; [unfold allowed; auto|auto]].
+           eapply set_options_err; [|exact H]. intros n d Hin. rewrite Hi in Hin. eapply Hp; eauto.
+        -- intros H. inversion H; subst. assert (k = ValueError) as -> by (eapply set_arguments_err; eauto).
+           split; [unfold allowed; auto|auto].
+    + cbn [snd]. intros H. inversion H; subst. destruct Hi as [-> ->]. split; [unfold allowed; auto|discriminate].
+Qed.
+
+Theorem lenient_no_parse_error_w f f' ar cns toks :
+  aug_format f = Ok (f', ar, cns) -> opts_ok_w f' ->
+  parse f true toks <> Err NoSuchOption /\ parse f true toks <> Err CannotParse.
+Proof.
+  intros Ha Hok. split; intros H; destruct (parse_error_kinds_w f true toks f' ar cns Ha Hok _ H) as [_ Hv];
+    specialize (Hv eq_refl); discriminate.
+Qed.
+
+Theorem bad_option_value_w f f' ar cns toks st1 st2 n v :
+  aug_format f = Ok (f', ar, cns) -> opts_ok_w f' -> scans f' toks st1 ->
+  insert_missing ar cns false st1 = Ok st2 -> missing_required ar st2 = false ->
+  In (n, v) (ps_opts st1) -> bad_opt f n v ->
+  parse f false toks = Err ValueError.
+Proof.
+  intros Ha Hok Hs Hi Hm Hin Hb. rewrite (parse_after_scan _ _ _ _ _ _ Ha Hs), Hi, Hm.
+  pose proof (insert_missing_spec ar cns false st1) as Ho. rewrite Hi in Ho.
+  destruct (loop_spec_w f' false Hok (S (length toks)) true ps_empty toks st_plain_empty ltac:(lia)) as [Hp _].
+  unfold scans in Hs. rewrite Hs in Hp. cbn [fst] in Hp.
+  destruct (set_arguments f _ (ps_args st2)) as [a1|k] eqn:Ea; cbn [bind].
+  - rewrite <- Ho in Hin. destruct (set_options_bad f n v Hb _ a1 Hin) as [k Hk]. rewrite Hk.
+    rewrite (set_options_err f (ps_opts st2) a1 k); [reflexivity| |exact Hk].
+    intros n0 d Hd. rewrite Ho in Hd. eapply Hp; eauto.
+  - rewrite (set_arguments_err _ _ _ _ Ea). reflexivity.
+Qed.
+
+(* decidable sufficient condition, and the evidence that the stronger hypothesis excludes such formats *)
+Definition opt_ok_wb (o : opt) : bool := (negb (o_multi o) || o_required o) && (o_required o || conv_input (o_default o)).
+Fixpoint opts_ok_wb (f : fmt) : bool :=
+  match f with Fmt b _ _ _ _ os oss _ _ =>
+    forallb (fun no => opt_ok_wb (snd no)) os && forallb (fun no => opt_ok_wb (snd no)) oss &&
+    match b with Some bf => opts_ok_wb bf | None => true end end.
+Lemma opts_ok_wb_ok f : opts_ok_wb f = true -> opts_ok_w f.
+Proof.
+  unfold opts_ok_w. cbn [get_option].
+  induction f as [cn co cs ar os oss hm ho|bf cn co cs ar os oss hm ho IH] using fmt_ind';
+    cbn [opts_ok_wb get_option_all]; intros H n o Hg;
+    apply andb_prop in H as [H Hb]; apply andb_prop in H as [H1 H2]; rewrite forallb_forall in H1, H2.
+  all: assert (opt_ok_wb o = true -> (o_multi o = true -> o_required o = true) /\
+                                     (o_required o = false -> conv_input (o_default o) = true)) as Hfin
+    by (unfold opt_ok_wb; intros Hx; apply andb_prop in Hx as [Hx1 Hx2]; split;
+        [intros Hmu; rewrite Hmu in Hx1; exact Hx1|intros Hr; rewrite Hr in Hx2; exact Hx2]).
+  all: destruct (sget n os) as [o1|] eqn:E1; [inversion Hg; subst; apply Hfin, (H1 (n, o)), sget_in, E1|].
+  all: destruct (sget n oss) as [o2|] eqn:E2; [inversion Hg; subst; apply Hfin, (H2 (n, o)), sget_in, E2|].
+  - discriminate.
+  - eapply IH; eauto.
+Qed.
+
+Open Scope string_scope.
+(* ex_f plus a multi-valued option --tag/-t with the list default [] that Option.set_default gives it *)
+Definition ex_h : fmt := fmt_of (ex_cnames ++ ex_args ++ ex_opts ++ [EOpt (mkopt "tag" (Some "t") 32 (VList []))]).
+Definition ex_h' := fst (fst (aug_of ex_h)).  Definition ex_har := snd (fst (aug_of ex_h)).  Definition ex_hcn := snd (aug_of ex_h).
+Lemma ex_h_aug : aug_format ex_h = Ok (ex_h', ex_har, ex_hcn).  Proof. vm_compute. reflexivity. Qed.
+Example ex_h_not_opts_ok : ~ opts_ok ex_h'.
+Proof.
+  intros H. destruct (H (S_ "tag") (mkopt "tag" (Some "t") 32 (VList []))) as [_ Hc]; [vm_compute; reflexivity|].
+  vm_compute in Hc. discriminate.
+Qed.
+Lemma ex_h_opts_ok_w : opts_ok_w ex_h'.  Proof. apply opts_ok_wb_ok. vm_compute. reflexivity. Qed.
+Example ex_bad_multi_option_value : parse ex_h false (T ["x"; "-t"; "a"; "--num=abc"; "--tag"; "b"]) = Err ValueError.
+Proof.
+  pose (st1 := scan_st ex_h' (T ["x"; "-t"; "a"; "--num=abc"; "--tag"; "b"])).
+  apply (bad_option_value_w ex_h ex_h' ex_har ex_hcn _ st1 (realigned ex_har ex_hcn st1) (S_ "num") (OStr (S_ "abc")) ex_h_aug ex_h_opts_ok_w).
+  - vm_compute. reflexivity.
+  - vm_compute. reflexivity.
+  - vm_compute. reflexivity.
+  - vm_compute. tauto.
+  - split; [vm_compute; reflexivity|]. eexists. split; [vm_compute; reflexivity|].
+    split; [vm_compute; reflexivity|]. split; [vm_compute; reflexivity|]. eexists. vm_compute. reflexivity.
+Qed.
+
+(* ---- observations (not defects of the model w.r.t. the property as read; see the report) ---- *)
+(* a value that does not convert is harmless when the same option is given again: the last one wins *)
+Example overwritten_bad_value_accepted : exists r, parse ex_f false (T ["x"; "--num=abc"; "--num=3"]) = Ok r.
+Proof. vm_compute. eexists. reflexivity. Qed.
+(* a short name spelled with two dashes is a known option *)
+Example short_name_with_two_dashes_accepted : exists r, parse ex_f false (T ["x"; "--v"]) = Ok r.
+Proof. vm_compute. eexists. reflexivity. Qed.
+(* "-" and negative numbers cannot be the value of "--num <value>" (they can with "--num=<value>") *)
+Example dash_value_rejected : parse ex_f false (T ["x"; "--num"; "-5"]) = Err CannotParse /\
+                              exists r, parse ex_f false (T ["x"; "--num=-5"]) = Ok r.
+Proof. vm_compute. split; [reflexivity|eexists; reflexivity]. Qed.
+Close Scope string_scope.
